@@ -296,6 +296,8 @@ def prepare():
         for n, base in (('Ext3', 'Draft3Validator'), ('Ext4', 'Draft4Validator'), ('Ext7', 'Draft7Validator')):
             EXT[n] = jsonschema.validators.extend(getattr(jsonschema, base), {})
     SEAMS.install()
+    import gc
+    gc.collect(); gc.freeze()
     return utils, jsonschema
 
 
@@ -413,7 +415,7 @@ def minimise(mods, table, calls, cls, cwd):
         outs, _, _, _ = run_history(mods, sub, cwd)
         v = check_history(table, sub, outs)
         return v is not None and v[0] == cls
-    small = common.ddmin(list(calls), fails, max_tests=200)
+    small = common.ddmin(list(calls), fails, max_tests=80)
     outs, _, _, _ = run_history(mods, small, cwd)
     return small, check_history(table, small, outs), outs
 
@@ -526,7 +528,7 @@ def _main(tier_, master, cfg, docs, A, cwd, t0):
             v = check_history(table, calls, outs)
             if v is not None:
                 st.inc('violating_runs')
-                if v[0] not in viols and len(viols) < 8:
+                if v[0] not in viols and len(viols) < 3:
                     small, mv, mouts = minimise(mods, table, calls, v[0], cwd)
                     viols[v[0]] = {'class': v[0], 'detail': (mv or v)[1], 'trace': [list(c) for c in small],
                                    'outcomes': mouts, 'run_index': i, 'minimised_from': len(calls)}
